@@ -119,7 +119,57 @@ def run(tier, seed, out, drv, facts):
                     if progcheck.last_bindings(gb) != progcheck.last_bindings(got):
                         out.violation(f"reject-binds:{name}", f"a rejected tree changed the bindings from {progcheck.last_bindings(gb)} to {progcheck.last_bindings(got)}", {"program": prog})
     arraylike_node_cases(out)
+    composite_leaf_cases(out, drv, facts, rng)
+    bare_pytree_cases(out)
     after_fault_cases(out)
+
+
+def composite_leaf_cases(out, drv, facts, rng):
+    """leaf types that accept both a bare array and a container of arrays sharing an axis name: a root that has the
+    container's outline but is NOT itself a leaf (its first child is a bare array) is an ordinary node; trying it as a leaf
+    must leave nothing behind"""
+    a, v = gen_prog.arr_type, gen_prog.arr_val
+    group = {"t": "union", "ts": [a("_"), {"t": "tuple", "ts": [a("n"), a("n")]}]}
+    vec3, vec4 = v([3]), v([4])
+    pair = {"t": "tuple", "xs": [vec4, vec4]}
+    trees = [{"t": "tuple", "xs": [vec3, pair]}, {"t": "tuple", "xs": [pair, vec3]}, {"t": "list", "xs": [vec3, pair]},
+             {"t": "dict", "keys": ["a", "b"], "vals": [vec3, pair]}, {"t": "tuple", "xs": [vec3, {"t": "tuple", "xs": [vec4, v([5])]}]}, pair]
+    for tree in trees:
+        for lt in ({"t": "pytree", "l": group, "s": None}, {"t": "pytree", "l": {"t": "pytree", "l": group, "s": None}, "s": None}):
+            prog = [{"op": "ctx", "body": [{"op": "check", "l": lt, "x": tree}, P], "exit": "ret"}]
+            got, want = progcheck.compare_program(out, drv, facts, prog, "composite-leaf", rng=rng, as_violation=as_violation)
+            out.case(("composite-leaf", json.dumps(tree, sort_keys=True), json.dumps(lt)[:40]), True, sample={"tree": tree, "verdict": progcheck.verdicts(got)[-1:]})
+
+
+def bare_pytree_cases(out):
+    """bare `PyTree` accepts EVERYTHING, also values jax.tree_util cannot flatten (dictionaries whose keys do not compare,
+    registered nodes whose flatten function raises) — it never looks inside"""
+    import jax
+    from jaxtyping import PyTree, jaxtyped
+    import typeguard
+
+    class Grumpy:
+        pass
+
+    def boom(_):
+        raise RuntimeError("cannot flatten")
+
+    jax.tree_util.register_pytree_node(Grumpy, boom, lambda aux, ch: Grumpy())
+
+    @jaxtyped(typechecker=typeguard.typechecked)
+    def f(x: PyTree):
+        return "ran"
+
+    for name, val in (("dict with int and str keys", {1: "x", "a": "y"}), ("dict with None key", {None: 0, "k": 1}), ("nested unsortable dict", [({2: 0, "b": 1},)]),
+                      ("node whose flatten raises", Grumpy()), ("list holding such a node", [1, Grumpy()]), ("an object()", object())):
+        got = impl.check_once(val, PyTree)
+        try:
+            r = f(val)
+        except BaseException as e:  # noqa: BLE001
+            r = "raised " + type(e).__name__
+        out.case(("bare-pytree", name), True, sample={"value": name, "isinstance": got, "decorated_call": r})
+        if got != "T" or r != "ran":
+            out.violation("bare-pytree", f"bare PyTree on {name}: isinstance gives {got}, a decorated call gives {r!r}; must be T / 'ran'", {"bare_pytree": name})
 
 
 def arraylike_node_cases(out):
@@ -243,6 +293,9 @@ def replay(rep, out, drv, facts):
         return
     if "arraylike_node" in rep:
         arraylike_node_cases(out)
+        return
+    if "bare_pytree" in rep:
+        bare_pytree_cases(out)
         return
     progcheck.compare_program(out, drv, facts, rep["program"], "replay", as_violation=as_violation)
     out.case("replay", True, sample=rep["program"])
